@@ -77,8 +77,59 @@ def mag_bin(edges, m):
     return next(iter(a)) if len(a) == 1 else None
 
 
+# ------------------------------------------------------------------ quadtree regions refined from a catalog
+def check_from_catalog(ctx, case):
+    """Region = QuadtreeGrid2D.from_catalog(catalog, threshold, zoom), built after an unrelated grid was built in the same process.
+    Its cells must be disjoint (an event lying in two cells cannot be 'counted exactly once'); the catalog it was refined from
+    is then gridded on it and compared with containment in the independent tile bounds of the region's own quadkeys."""
+    from csep.core.catalogs import CSEPCatalog
+    from csep.core.regions import QuadtreeGrid2D
+    pts = case["points"]
+    edges = mag_edges(case["mags"])
+    mags = numpy.array(edges)
+    hf = float(case["mags"]["step"])
+    ev = [("e%d" % i, 1000 * i, p[1], p[0], 5.0, edges[i % len(edges)] + (hf / 2 if i % 2 else 0.0)) for i, p in enumerate(pts)]
+
+    def build():
+        warm = CSEPCatalog(data=[("w%d" % i, i, 10.0 + i, 20.0 + 3 * i, 1.0, 5.0) for i in range(7)])
+        QuadtreeGrid2D.from_catalog(warm, 2, zoom=4)                       # an earlier, unrelated grid
+        return QuadtreeGrid2D.from_catalog(CSEPCatalog(data=list(ev)), case["threshold"], zoom=case["zoom"], magnitudes=mags)
+    o = call(build)
+    if not o.ok:
+        ctx.unexpected(o, "from_catalog")
+        return
+    region = o.value
+    keys = [str(k) for k in region.quadkeys]
+    ks = sorted(keys)
+    for a, b in zip(ks, ks[1:]):
+        if b.startswith(a):
+            ctx.violation("from_catalog_region_has_overlapping_cells", {"cell": a, "inside_or_equal": b, "n_cells": len(keys)})
+            return
+    b = [quad.bounds(k) for k in keys]
+    cells = []
+    for p in pts:
+        hit = [i for i, (w, s_, e, n) in enumerate(b) if w <= p[0] < e and s_ <= p[1] < n]
+        if len(hit) != 1 or any(min(abs(p[1] - s_), abs(p[1] - n)) < 1e-9 for (w, s_, e, n) in b):
+            ctx.count("skipped:ambiguous_event")
+            return
+        cells.append(hit[0])
+    E = numpy.zeros((len(keys), len(edges)))
+    for i, k in enumerate(cells):
+        E[k, i % len(edges)] += 1
+    cat = CSEPCatalog(data=list(ev), region=region)
+    for name, f, want in (("spatial_counts", cat.spatial_counts, E.sum(axis=1)), ("spatial_magnitude_counts", cat.spatial_magnitude_counts, E),
+                          ("magnitude_counts", cat.magnitude_counts, E.sum(axis=0))):
+        o = call(f)
+        if not o.ok:
+            ctx.unexpected(o, "from_catalog:" + name)
+        elif numpy.asarray(o.value).shape != want.shape or not numpy.array_equal(numpy.asarray(o.value), want):
+            ctx.violation("from_catalog:%s_wrong" % name, {"got_sum": float(numpy.sum(o.value)), "want_sum": float(want.sum()), "n_cells": len(keys)})
+
+
 # ------------------------------------------------------------------ check
 def check_case(ctx, case):
+    if case.get("family") == "quad_from_catalog":
+        return check_from_catalog(ctx, case)
     from csep.core.catalogs import CSEPCatalog
     M = model_of(case["region"])
     edges = mag_edges(case["mags"])
@@ -397,9 +448,29 @@ def cases(draw, max_events=40):
     return case
 
 
+@st.composite
+def from_catalog_cases(draw):
+    n = draw(st.integers(1, 40))
+    centre = (draw(st.floats(-170, 170)), draw(st.floats(-70, 70)))
+    pts = []
+    for _ in range(n):
+        if draw(st.booleans()):
+            pts.append([centre[0] + draw(st.floats(-3, 3)), centre[1] + draw(st.floats(-3, 3))])      # a cluster
+        else:
+            pts.append([draw(st.floats(-180, 179.999)), draw(st.floats(-84, 84))])
+    mc = {"start": draw(st.sampled_from(["4.95", "2.5", "4.0"])), "step": draw(st.sampled_from(["0.1", "0.5", "1"])), "n": draw(st.integers(1, 5))}
+    return {"family": "quad_from_catalog", "points": pts, "threshold": draw(st.integers(1, 6)), "zoom": draw(st.integers(2, 7)), "mags": mc}
+
+
 def run(ctx):
     def fn(c, case):
         check_case(c, case)
         c.record(case, bool(nontrivial(case)), "%s:%s%s" % (case["family"], case["region"]["kind"], ":explicit_over_bound" if case["mags"].get("region_grid") else ""))
+
+    def fn2(c, case):
+        check_case(c, case)
+        c.record(case, len(case["points"]) > case["threshold"], "quad_from_catalog")
+
+    ctx.drive(from_catalog_cases(), ctx.n(40, 400), fn=fn2, salt=2)
 
     ctx.drive(cases(max_events=ctx.n(40, 120)), ctx.n(600, 5000), fn=fn, salt=1)
